@@ -36,6 +36,10 @@ class BNum (α : Type) where
   toLong : α → Option Int
   /-- `PBasic::numtostr` (`hp` = high precision of the current selected output) -/
   fmt : Bool → α → String
+  /-- `m · 2^e` (hexadecimal floating literals of `strtod`) -/
+  ofBin : Nat → Int → α
+  /-- C `snprintf("%*.*f" / "%*.*e", width, prec, x)` (`STR_F$`, `STR_E$`; `isE` selects `%e`), cut to `cap` characters -/
+  fmtC : Bool → Int → Int → Nat → α → String
 
 namespace BNum
 variable {α : Type} [BNum α]
@@ -157,6 +161,35 @@ def fmtFloat (hp : Bool) (x : Float) : String :=
       if s.length > 255 then expForm else s
     else expForm
 
+/-- `%.{p}f` of the non-negative rational `n/d` -/
+def fmtFixRat (p : Nat) (n d : Nat) : String :=
+  let num := n * pow10 p
+  let q := num / d
+  let r := num % d
+  let q := if 2 * r > d ∨ (2 * r = d ∧ q % 2 = 1) then q + 1 else q
+  let ip := q / pow10 p
+  if p = 0 then toString ip else toString ip ++ "." ++ zpad p (q % pow10 p)
+
+/-- C `printf("%*.*f" | "%*.*e", w, p, x)` then truncation to `cap` characters (`snprintf` buffer) -/
+def fmtCFloat (isE : Bool) (w p : Int) (cap : Nat) (x : Float) : String :=
+  let prec : Nat := if p < 0 then 6 else p.toNat          -- a negative precision is taken as if omitted
+  let body : String :=
+    if x.isNaN then "nan"
+    else if x.isInf then (if x < 0.0 then "-inf" else "inf")
+    else
+      let (neg, m, e) := decodeFloat x
+      let sgn := if neg then "-" else ""
+      let (n, d) : Nat × Nat := if e ≥ 0 then (m * pow2 e.toNat, 1) else (m, pow2 (-e).toNat)
+      if isE then
+        (if m = 0 then sgn ++ (if prec = 0 then "0" else "0." ++ zpad prec 0) ++ "e+00" else sgn ++ fmtExpRat prec n d)
+      else sgn ++ fmtFixRat prec n d
+  let width := w.natAbs
+  let padded :=
+    if body.length ≥ width then body
+    else if w < 0 then body ++ String.ofList (List.replicate (width - body.length) ' ')
+    else String.ofList (List.replicate (width - body.length) ' ') ++ body
+  String.ofList (padded.toList.take cap)
+
 def fn1Float : Fn1 → Float → Float
   | .sqrt, x => Float.sqrt x
   | .exp, x => Float.exp x
@@ -188,6 +221,9 @@ instance : BNum Float where
   fmod := fmodFloat
   toLong := toLongFloat
   fmt := fmtFloat
+  ofBin := fun m e => if e ≥ 0 then (if e > 2000 then (if m = 0 then 0.0 else Float.scaleB 1.0 3000) else ratToFloat (m * pow2 e.toNat) 1)
+                      else (if -e > 3000 then (if m = 0 then 0.0 else ratToFloat m (pow2 3000 * pow2 3000)) else ratToFloat m (pow2 (-e).toNat))
+  fmtC := fmtCFloat
 
 /-! ### exact arithmetic: `Rat` with uninterpreted libm functions -/
 
@@ -195,6 +231,7 @@ structure RatFns where
   f1 : Fn1 → Rat → Rat
   fmod0 : Rat → Rat          -- value of `fmod x 0`
   fmt : Bool → Rat → String
+  fmtC : Bool → Int → Int → Nat → Rat → String
 
 def ratTrunc (q : Rat) : Int := if q < 0 then -((-q).floor) else q.floor
 
@@ -214,5 +251,7 @@ def ratTrunc (q : Rat) : Int := if q < 0 then -((-q).floor) else q.floor
   fmod := fun a b => if b = 0 then F.fmod0 a else a - (ratTrunc (a / b) : Rat) * b
   toLong := fun q => some (ratTrunc q)
   fmt := F.fmt
+  ofBin := fun m e => if e ≥ 0 then (m : Rat) * ((2 : Rat) ^ e.toNat) else (m : Rat) / ((2 : Rat) ^ (-e).toNat)
+  fmtC := F.fmtC
 
 end PhreeqcVerif.Basic
